@@ -2850,7 +2850,7 @@ fn same_slot_as_previous<T>(items: &[T], start: usize, pos: usize, name: impl Fn
 
 /// Glob pattern matching over bytes (keys are binary-safe: `?` and classes consume one byte,
 /// and a byte that is not valid UTF-8 matches only itself)
-fn pattern_matches(pattern: &[u8], text: &[u8]) -> bool {
+pub(crate) fn pattern_matches(pattern: &[u8], text: &[u8]) -> bool {
     let pattern_chars = pattern;
     let text_chars = text;
     
